@@ -82,10 +82,11 @@ def _submit(pool, job, handles, gate=None):
             h = pool.apply_async(tasks.t_value, (tag, job.get('dur', 0)), callback=cb)
     else:
         durs = job.get('durs')
-        items = [['%s.%d' % (tag, i), durs[i] if durs else job.get('dur', 0)]
+        items = [['%s.%d' % (tag, i), durs[i] if durs else job.get('dur', 0),
+                  i == job.get('fail_at')]
                  for i in range(job['n'])]
         if k == 'map':
-            h = pool.starmap_async(tasks.t_value, items, job.get('chunk'))
+            h = pool.starmap_async(tasks.t_maybe, items, job.get('chunk'))
         elif k == 'imap':
             h = pool.imap(_star_value, items, job.get('chunk') or 1)
         else:
@@ -95,7 +96,7 @@ def _submit(pool, job, handles, gate=None):
 
 
 def _star_value(a):
-    return tasks.t_value(*a)
+    return tasks.t_maybe(*a)
 
 
 def _collect(job, h, timeout):
